@@ -115,6 +115,17 @@ CHECKS = {
              "when a scenario hits its schedule budget.",
         technique="stateless model checking of schedules (all task interleavings; preemption-bounded thread interleavings) on the real implementation",
         design="3/C12"),
+    "C13": dict(
+        text="(a) Twin exploration: every family-F program of the async-capable kinds is rendered twice - def and async def, "
+             "identical otherwise - and executed for all truth assignments x 5 body outcome/mutation modes; the two real event "
+             "logs and outcomes must be equal (differential, no reference model). (b) Placement product: condition/capture kind "
+             "(plain, coroutine function, lambda returning a coroutine / done Future / custom awaitable) x role (pre, post, "
+             "capture, invariant) x sync|async x function|method x awaited value: awaited before being judged on async callables, "
+             "ValueError (never truthy) for coroutines on sync callables and for invariants.",
+        note="Trusted: CPython; coroutines are hand-driven. Futures/custom awaitables on sync callables, as captured values and as "
+             "invariants are not judged (statement silent).",
+        technique="exhaustive differential enumeration of sync/async twin programs on the real code; placement product table",
+        design="3/C13"),
     "C16": dict(
         text="Exhaustive exploration of family F (all kinds, sync/async, plain/DBC chains of <=3 classes, own and inherited "
              "stacks of pre/post/snapshot/invariant, two decorator layouts, foreign functools.wraps decorators at top/middle/"
